@@ -35,7 +35,7 @@ func (c06) Describe() CheckInfo {
 		},
 		RealCode:       []string{"gopatch main()/runMain/mainCmd.Run, loader, patch.Parse/File.Apply, internal/*, go-flags, pkg/diff, x/tools/imports, go-intervals, go/parser, go/printer"},
 		Stubs:          []string{"package os (simulated filesystem, streams, exit)", "path/filepath filesystem half", "io/ioutil"},
-		RequiredProbes: []string{"unmatched-noncanonical", "unmatched-with-matching-neighbour", "print-only-echo", "diff-mode", "api-apply-unmatched", "verbose"},
+		RequiredProbes: []string{"unmatched-noncanonical", "unmatched-with-matching-neighbour", "print-only-echo", "diff-mode", "api-apply-unmatched", "verbose", "echo-adjacency-checked", "unmatched-readonly-or-odd-mode", "api-earlier-call-on-shared-patch"},
 	}
 }
 
@@ -55,6 +55,8 @@ func (c06) Gen(env *Env, seed uint64, tier string, i int) *Case {
 		dir := ""
 		if r.Chance(1, 3) {
 			dir = r.Pick([]string{"pkg/", "internal/x/", "cmd/tool/"})
+		} else if r.Chance(1, 6) {
+			dir = OddDir(r)
 		}
 		roll := r.Intn(100)
 		switch {
@@ -72,7 +74,12 @@ func (c06) Gen(env *Env, seed uint64, tier string, i int) *Case {
 			if ContainsAny(data, triggers) || ContainsAny(data, []string{"Code generated", "@generated"}) {
 				continue
 			}
-			c.AddFile(fmt.Sprintf("%snm%d.go", dir, j), data, "nomatch", nil, note)
+			p := c.AddFile(fmt.Sprintf("%snm%d.go", dir, j), data, "nomatch", nil, note)
+			if r.Chance(1, 5) {
+				// read-only and otherwise unusual permission bits
+				c.SetNode(world.NodeSpec{Path: p, Kind: "file", Data: data, Mode: []uint32{0o444, 0o555, 0o400, 0o640, 0o664}[r.Intn(5)]})
+				env.Probe("unmatched-readonly-or-odd-mode")
+			}
 		case roll < 88:
 			// a file matched by a random non-empty subset of the changes
 			var cs []Change
@@ -175,11 +182,16 @@ func (c06) Eval(env *Env, c *Case) []Violation {
 	if c.Flags.Verbose {
 		env.Probe("verbose")
 	}
+	apiCache := map[int]Applier{}
 	stdoutPos := 0
-	for _, f := range c.SortedFiles() {
+	prevEnd := -1 // end of the echo of the previous file in path order, if that file was unmatched too
+	sortedAll := c.SortedFiles()
+	for fi, f := range sortedAll {
 		if f.Role != "nomatch" {
+			prevEnd = -1
 			continue
 		}
+		_ = fi
 		if f.Note != "canonical" {
 			env.Probe("unmatched-noncanonical")
 		}
@@ -219,7 +231,13 @@ func (c06) Eval(env *Env, c *Case) []Violation {
 					add("print-echo", "missing", fmt.Sprintf("--print-only did not echo the original bytes of unmatched file %s (%s)", f.Path, mode))
 				}
 			} else {
+				start := stdoutPos + idx
+				if prevEnd >= 0 && !c.Flags.Verbose && start != prevEnd {
+					add("print-echo", "not-verbatim", fmt.Sprintf("--print-only put %d extra byte(s) between the echoes of two unmatched files (before %s): the output is not their original bytes", start-prevEnd, f.Path))
+				}
 				stdoutPos += idx + len(before.Data)
+				prevEnd = stdoutPos
+				env.Probe("echo-adjacency-checked")
 			}
 			same := 0
 			for _, g := range c.Files {
@@ -245,12 +263,29 @@ func (c06) Eval(env *Env, c *Case) []Violation {
 		if bytes.Contains(r.Stderr, []byte(base)) {
 			add("stderr", "mentions-file", fmt.Sprintf("stderr mentions unmatched file %s: %q", f.Path, clip(string(r.Stderr), 300)))
 		}
-		// (6) library API returns the input unchanged
-		for _, p := range c.Patches {
-			ap, pres := ParseAPI(env.Prog, "p.patch", p.Data)
+		// (6) library API returns the input unchanged -- also when the same parsed
+		// patch has just been used on other files, including ones for which it fails
+		for pi, p := range c.Patches {
+			ap := apiCache[pi]
 			if ap == nil {
-				_ = pres
-				continue
+				var pres APIResult
+				ap, pres = ParseAPI(env.Prog, "p.patch", p.Data)
+				if ap == nil {
+					_ = pres
+					continue
+				}
+				apiCache[pi] = ap
+				for _, g := range sortedAll {
+					if g.Role != "nomatch" {
+						ApplyAPI(ap, path.Base(g.Path), c.NodeData(g.Path))
+						env.Probe("api-earlier-call-on-shared-patch")
+					}
+				}
+				for _, src := range c06FailingSources {
+					if x := ApplyAPI(ap, "failing.go", []byte(src)); x.IsErr {
+						env.Probe("api-failing-call-before-unmatched")
+					}
+				}
 			}
 			ares := ApplyAPI(ap, base, before.Data)
 			env.Probe("api-apply-unmatched")
@@ -283,6 +318,10 @@ func (c06) Eval(env *Env, c *Case) []Violation {
 	}
 	return vs
 }
+
+// sources on which Apply fails (does not parse), used to put a failing call
+// in front of the unmatched ones
+var c06FailingSources = []string{"package broken\n\nfunc {{{\n"}
 
 func c06Key(c *Case) string {
 	var parts []string
